@@ -519,7 +519,7 @@ class AtomsEngine(Engine):
         return s
 
     # ---------------------------------------------------------------- shrink
-    def shrink(self, scenario):
+    def shrink(self, scenario, violation=None):
         s = scenario
         if s["kind"] == "sweep":
             a, b = s["slice"]
